@@ -30,17 +30,30 @@ VARIABLES ci,      \* the case (universe + problem)
           s        \* protocol state
 vars == <<ci, s>>
 
+CONSTANTS CleanupOnDrop,     \* see AsyncCore
+          WithCancel         \* explore cancellation and a second solve on the same solver
+
 Core == INSTANCE AsyncCore WITH u <- Cases[ci].u, p <- Cases[ci].ps[1]
 
 Init == ci \in DOMAIN Cases /\ s = Core!RTQ(Core!S0)
-Next == \E r \in s.reqs : s' = Core!RTQ(Core!Complete(s, r)) /\ UNCHANGED ci
-Spec == Init /\ [][Next]_vars /\ WF_vars(Next)
+CompleteOne == \E r \in s.reqs : s' = Core!RTQ(Core!Complete(s, r)) /\ UNCHANGED ci
+\* the provider starts signalling cancellation (at most once, first solve only)
+FireCancel == /\ WithCancel /\ ~s.cancel /\ s.solves = 1 /\ s.tasks # {}
+              /\ s' = [s EXCEPT !.cancel = TRUE] /\ UNCHANGED ci
+\* solve() returned (finished or cancelled): the same solver is used again
+SolveAgain == /\ WithCancel /\ s.solves = 1 /\ s.tasks = {} /\ s.reqs = {}
+              /\ s' = Core!RTQ(Core!NextSolveState(s)) /\ UNCHANGED ci
+Next == CompleteOne \/ FireCancel \/ SolveAgain
+Spec == Init /\ [][Next]_vars /\ WF_vars(CompleteOne)
 
 \* properties for every completion order (definitions in AsyncCore)
 NoDeadlock == Core!NoDeadlock(s)
 NoDuplicateCall == Core!NoDuplicateCall(s)
 MaxIssued == Core!MaxIssued(s)
 Causal == Core!Causal(s)
-ResultIndependent == Core!ResultIndependent(s)
+ResultIndependent == s.solves = 1 => Core!ResultIndependent(s)
+\* C12: no get_candidates / get_dependencies request is started once cancellation was observed
+\* (by construction of Ensure); C13: the second solve never waits on a stale marker
+SecondSolveTerminates == <>(s.solves = 2 /\ Core!Finished(s)) \/ <>[](s.solves = 1)
 EncodeTerminates == <>Core!Finished(s)
 =============================================================================
